@@ -91,7 +91,7 @@ def presized(cat, rng, how, stack=None):
         else:
             b.merge("m", srcs)
             target = "m"
-    h0 = b.raw("heap %s" % target, None, cmp="heap", shape="heap")
+    h0 = b.raw("heap %s" % target, None, cmp="none", shape="heap")
     b.raw("allocs", None, cmp="none", shape="allocs")
     forms = [f for f in cat["forms"] if f not in ("item", "itemowned") and f not in cat["array_forms"]]
     # owned forms move the caller's vector in; they are fine too (no allocation inside the push)
@@ -100,7 +100,7 @@ def presized(cat, rng, how, stack=None):
         b.push(target, v, f, sig="push@" + b.entry)
     sig = {"items": "realloc-after-reserve_items", "regions": "realloc-after-reserve_regions", "merge": "realloc-after-merge_regions"}[how]
     if stack is None or how != "items":
-        b.raw("heap %s" % target, ("rel", h0, same_caps, "no capacity changes while absorbing the announced contents"), cmp="heap",
+        b.raw("heap %s" % target, ("rel", h0, same_caps, "no capacity changes while absorbing the announced contents"), cmp="none",
               sig=sig + "@" + b.entry, shape="heap")
         if plain(cat["term"]):
             b.raw("allocs", ("pred", no_allocs, "no allocator call"), cmp="none", sig=sig + "-allocs@" + b.entry, shape="allocs")
@@ -127,7 +127,7 @@ def stack_presized(cat, rng, stack):
         b.merge("m", ["s"])
         target = "m"
         whole = structural(cat["term"])
-    h0 = b.raw("heap %s" % target, None, cmp="heap", shape="heap")
+    h0 = b.raw("heap %s" % target, None, cmp="none", shape="heap")
     for v in vals:
         b.push(target, v, b.form_for(v))
 
@@ -138,7 +138,7 @@ def stack_presized(cat, rng, stack):
         if whole:
             return None if a == c else "capacities changed: %s -> %s" % (c, a)
         return None if a[-1] == c[-1] else "index vector reallocated: %d -> %d" % (c[-1], a[-1])
-    b.raw("heap %s" % target, ("rel", h0, last_cap_same, "the FlatStack's index vector does not reallocate"), cmp="heap",
+    b.raw("heap %s" % target, ("rel", h0, last_cap_same, "the FlatStack's index vector does not reallocate"), cmp="none",
           sig="stack-index-realloc@" + b.entry, shape="heap")
     b.s.nontrivial = True
     return b.s
